@@ -194,17 +194,21 @@ example : ((run (Params.proto true) [.poll 0 0, .recvParams, .poll 1 1, .poll 0 
 
 /-! ### 7. keys (`KeysState`, `OneRttKeysState`) — one slot, a second waker is `unreachable!` (explicit panic outcome) -/
 
-theorem keys_no_lost_wakeup_partial (sched : List Keys.Op) (h1 : ∀ op ∈ sched, SingleTask Keys.proto op) :
-    ∀ x ∈ (run Keys.proto sched).slp, ¬ cond Keys.proto (run Keys.proto sched).st x :=
-  no_lost_wakeup _ Keys.sound.toSound sched h1
+theorem keys_no_lost_wakeup_partial (oneRtt : Bool) (sched : List Keys.Op)
+    (h1 : ∀ op ∈ sched, SingleTask (Keys.proto oneRtt) op) :
+    ∀ x ∈ (run (Keys.proto oneRtt) sched).slp, ¬ cond (Keys.proto oneRtt) (run (Keys.proto oneRtt) sched).st x :=
+  no_lost_wakeup _ (Keys.sound oneRtt).toSound sched h1
 
-theorem keys_close_wakes_all (sched : List Keys.Op) (h1 : ∀ op ∈ sched, SingleTask Keys.proto op) :
-    ∀ x ∈ (run Keys.proto sched).slp, x.w ∈ (Keys.step (run Keys.proto sched).st .invalid).2.wakes :=
-  close_wakes_all _ Keys.sound sched h1
+theorem keys_close_wakes_all (oneRtt : Bool) (sched : List Keys.Op)
+    (h1 : ∀ op ∈ sched, SingleTask (Keys.proto oneRtt) op) :
+    ∀ x ∈ (run (Keys.proto oneRtt) sched).slp,
+      x.w ∈ (Keys.step oneRtt (run (Keys.proto oneRtt) sched).st .invalid).2.wakes :=
+  close_wakes_all _ (Keys.sound oneRtt) sched h1
 
 /-- the slot is not cleared when the waiting future is dropped: the next task (another waker) panics. -/
-theorem keys_second_waker_panics :
-    (Keys.step (run Keys.proto [.poll 0 0, .dropfut 0]).st (.poll 1 1)).2.res = .panic := by decide
+theorem keys_second_waker_panics (oneRtt : Bool) :
+    (Keys.step oneRtt (run (Keys.proto oneRtt) [.poll 0 0, .dropfut 0]).st (.poll 1 1)).2.res = .panic := by
+  cases oneRtt <;> decide
 
 /-! ### 8. DatagramReader — one slot, overwritten by every Pending poll -/
 
